@@ -260,7 +260,7 @@ class PLoop(Pattern):
                 self.read_all = True
 
         if self.read_all and self.pos >= len(self.values):
-            if self.loop_index >= self.count - 1:
+            if self.loop_index >= self.count - 1 or len(self.values) == 0:
                 raise StopIteration
             else:
                 self.loop_index += 1
